@@ -357,9 +357,10 @@ nextStateFile:
 			matches.Shrink()
 			nt := &tag{
 				TagDetails: query.TagDetails{
-					Matches:    matches,
-					Uncertain:  mgr.allStreams,
-					Conditions: q.Conditions,
+					Matches:       matches,
+					Uncertain:     mgr.allStreams,
+					Conditions:    q.Conditions,
+					ReferenceTime: q.ReferenceTime,
 				},
 				definition:   t.Definition,
 				features:     q.Conditions.Features(),
@@ -1047,7 +1048,8 @@ func (mgr *Manager) AddTag(name, color, queryString string) error {
 	}
 	nt := &tag{
 		TagDetails: query.TagDetails{
-			Conditions: q.Conditions,
+			Conditions:    q.Conditions,
+			ReferenceTime: q.ReferenceTime,
 		},
 		definition:   queryString,
 		features:     features,
@@ -1217,7 +1219,8 @@ func (mgr *Manager) UpdateTag(name string, operation UpdateTagOperation) error {
 		}
 		newTag = &tag{
 			TagDetails: query.TagDetails{
-				Conditions: q.Conditions,
+				Conditions:    q.Conditions,
+				ReferenceTime: q.ReferenceTime,
 			},
 			definition: *info.query,
 			features:   features,
@@ -2531,7 +2534,7 @@ func (v *View) prefetchTags(ctx context.Context, tags []string, bm bitmask.LongB
 					continue outer
 				}
 			}
-			matches, _, _, err := index.SearchStreams(ctx, v.indexes, &uncertain, time.Time{}, ti.Conditions, nil, []query.Sorting{{Key: query.SortingKeyID, Dir: query.SortingDirAscending}}, 0, 0, v.tagDetails, v.converters, false)
+			matches, _, _, err := index.SearchStreams(ctx, v.indexes, &uncertain, ti.ReferenceTime, ti.Conditions, nil, []query.Sorting{{Key: query.SortingKeyID, Dir: query.SortingDirAscending}}, 0, 0, v.tagDetails, v.converters, false)
 			if err != nil {
 				return err
 			}
